@@ -296,14 +296,20 @@ fn gen_valid_history(prop: &str, seed: u64, tier: Tier) -> Scenario {
     if rng.chance(p_huge) {
         sc.config = gen_huge_config(&mut rng);
         sc.signal = Signal::Const { v: 0.25 };
-        let n = rng.usize_in(2, 4);
-        let mut m = OpMix::swarm(&mut rng, n);
-        m.w_partial = 0.0;
-        m.p_alt_path = 0.0;
-        m.p_slack = 0.0;
-        m.p_ragged = 0.0;
-        m.w_chunk = 0.0;
-        sc.ops = gen_ops_uniform(&mut rng, &sc.config, &m);
+        // a deliberate short history: calls, a ratio drop to the lower bound (async) or a reset in between
+        let mut ops = vec![Op::process()];
+        if sc.config.kind.is_async() && sc.config.max_rel > 1.0 {
+            ops.push(Op::SetRatio { rel: 1.0 / sc.config.max_rel, ramp: rng.chance(0.5), relative_api: rng.chance(0.5) });
+            ops.push(Op::process());
+        }
+        if rng.chance(0.5) {
+            ops.push(Op::Reset);
+        }
+        ops.push(Op::process());
+        if rng.chance(0.4) {
+            ops.push(Op::process());
+        }
+        sc.ops = ops;
         sc.profile = "huge-frame-counts".into();
         return sc;
     }
